@@ -191,9 +191,53 @@ def _copies_back(b, op):
     return out
 
 
+PERIODIC_DOMAIN = 'topology::traits::global_topology_model::GlobalTopologyModel::periodic_domain'
+
+
+def _nonperiodic_edges(prog, body):
+    """Edges taken when `periodic_domain()` answered None (no periods: canonicalisation is the identity)."""
+    edges = set()
+    for bb, t in body.calls():
+        n = t.resolved or t.callee or ''
+        if n == PERIODIC_DOMAIN or n.endswith('::periodic_domain'):
+            edges |= flow.call_flow(body, bb).err_edges
+    return edges
+
+
+def _wrap_gates(prog, lv):
+    """Functions that cannot return success without the coordinates having passed
+    canonicalize_point_in_place (greatest fixed point; the only accepted bypass is the edge taken
+    when the topology has no periodic domain)."""
+    cands = {q for q, b in prog.bodies.items() if flow.type_kind(b.locals[0]) == 'result' and WRAP in lv.reach_set(q)}
+    C = set(cands)
+    changed = True
+    while changed:
+        changed = False
+        for q in sorted(C):
+            b = prog.bodies[q]
+            cflows = flow.all_call_flows(b)
+            via = set()
+            gcalls = []
+            for bb, t in b.calls():
+                names = {n for n in (t.resolved, t.callee) if n}
+                if WRAP in names or names & (C - {q}) or any(n.endswith('::canonicalize_point_in_place') for n in names):
+                    cf = cflows[bb]
+                    if cf.ok_edges or cf.forward_blocks:
+                        via |= cf.ok_edges
+                        gcalls.append(bb)
+            targets = [e['bb'] for e in gate.success_exit_blocks(b, forwarded_from=gcalls)]
+            reach = flow.reach_edges_cp(b, [0], avoid_edges=via | _nonperiodic_edges(prog, b))
+            if not gcalls or any(t_ in reach for t_ in targets):
+                C.discard(q)
+                changed = True
+    return C
+
+
 def _wrapgate(ctx, cfg, prog, mod):
     lv = gate.Leaves(prog)
     res = pair.Resources(prog, mod)
+    G = _wrap_gates(prog, lv)
+    ctx.info.setdefault('wrap_gates', {})[cfg] = sorted(G)
     n = 0
     for q, b in sorted(prog.bodies.items()):
         if b.kind == 'closure' or not b.exported:
@@ -222,17 +266,29 @@ def _wrapgate(ctx, cfg, prog, mod):
                     cq = s.rv.raw['def']
                     if cq in prog.bodies and INSV in lv.reach_set(cq):
                         targets.append(blk.idx)
-        r = gate.must_pass(prog, lv, b, {WRAP}, mode='any', targets=targets)
-        detail = 'calls leading to vertex storage: blocks %s; canonicalisation gates: %s' % (
-            sorted(set(targets))[:6], [g[1] for g in r['gates']] or 'none')
-        if not r['ok']:
-            detail += ('; the vertex reaches Tds::insert_vertex_with_mapping without passing '
-                       'GlobalTopologyModel::canonicalize_point_in_place: on a toroidal triangulation the point is '
-                       'stored unwrapped')
-        ctx.ob('WRAPGATE', q, cfg, r['ok'], detail, site='%s:%d' % (b.file, b.line))
+        # gates: success edges of calls to WRAP itself or to a must-canonicalise function
+        cflows = flow.all_call_flows(b)
+        via = set()
+        gates_seen = []
+        for bb, t in b.calls():
+            names = {x for x in (t.resolved, t.callee) if x}
+            if WRAP in names or names & G:
+                via |= cflows[bb].ok_edges
+                gates_seen.append((t.resolved or t.callee).rsplit('::', 1)[-1])
+        reach_b = flow.reach_edges_cp(b, [0], avoid_edges=via | _nonperiodic_edges(prog, b))
+        esc = [x for x in targets if x in reach_b]
+        ok = bool(gates_seen) and not esc
+        detail = 'calls leading to vertex storage: blocks %s; canonicalisation gates (must-canonicalise functions): %s' % (
+            sorted(set(targets))[:6], gates_seen or 'none')
+        if not ok:
+            detail += ('; the vertex reaches Tds::insert_vertex_with_mapping on a path on which '
+                       'GlobalTopologyModel::canonicalize_point_in_place has not necessarily run (a helper that can return '
+                       'the vertex unchanged is not a gate): on a toroidal triangulation a point can be stored unwrapped')
+        ctx.ob('WRAPGATE', q, cfg, ok, detail, site='%s:%d' % (b.file, b.line))
         if cfg == ctx.cfgs[0]:
-            ctx.sample({'rule': 'WRAPGATE', 'function': q, 'wrapped': r['ok']})
+            ctx.sample({'rule': 'WRAPGATE', 'function': q, 'wrapped': ok})
     ctx.floor('exported DT operations inserting a vertex by point location', 2, n, cfg)
+    ctx.floor('must-canonicalise functions', 1, len(G), cfg)
 
 
 def _builder(ctx, cfg, prog, mod):
